@@ -79,44 +79,30 @@ Proof.
     + intros k. apply rdkit_node_stereo; assumption.
 Qed.
 
-(* SMILES atom classes are carried onto the graph nodes (hydrogens have none).  Built-in path: when
-   Builder.build succeeded (or canonical_atoms_at_origin keeps the classes); see
-   atom_classes_on_build_failure_fixed_or_refuted. *)
+(* SMILES atom classes are carried onto the graph nodes (hydrogens have none) - on the built-in path also when
+   Builder.build fails and the atoms come from canonical_atoms_at_origin (Lemmas.origin_keeps_ok reads the regenerated
+   constant: the proof breaks if builder.py drops atom_class there again, the defect repaired by ae1a4b7). *)
 Theorem atom_classes_carried :
   forall I c m, wf_mol (mol I) = true ->
-  (bo_build_ok (bo I) || origin_keeps_class = true ->
-   exists g a, delivers (run_builtin I (init_state c m)) g a /\
+  (exists g a, delivers (run_builtin I (init_state c m)) g a /\
                forall k, node_class g k = class_spec (mol I) k) /\
   (rdk_agrees (mol I) (rd I) ->
    exists g a, delivers (run_rdkit I (init_state c m)) g a /\
                forall k, node_class g k = class_spec (mol I) k).
 Proof.
   intros I c m W. split.
-  - intros OK. exists (builtin_graph I), (builder_atoms I). split.
+  - exists (builtin_graph I), (builder_atoms I). split.
     + split; [apply builtin_no_crash, W | split; [apply builtin_graph_eq | apply builtin_atoms_eq]].
-    + intros k. rewrite builtin_node_class, OK. reflexivity.
+    + intros k. apply builtin_node_class.
   - intros A. exists (rdkit_graph I), (rdkit_atoms I). split.
     + split; [apply rdkit_no_crash; assumption | split; [apply rdkit_graph_eq | apply rdkit_atoms_eq]].
     + intros k. apply rdkit_node_class, A.
 Qed.
 
-(* When Builder.build raises, smiles.py:149-150 takes canonical_atoms_at_origin.  As long as that drops
-   atom_class (origin_keeps_class = false, read from builder.py) the classes are LOST: witness [CH3:4]O with
-   a failing build.  Reported as init_smiles|class-lost-on-build-failure.  (Left disjunct: repaired.) *)
-Theorem atom_classes_on_build_failure_fixed_or_refuted :
-  origin_keeps_class = true \/
-  exists I g, wf_mol (mol I) = true /\ m_graph (run_builtin I (init_state 0%Z 1)) = Some g /\
-              class_spec (mol I) 0 = Some 4 /\ node_class g 0 = None.
-Proof.
-  first [ left; reflexivity
-        | right; exists w_buildfail, (builtin_graph w_buildfail); repeat split; reflexivity ].
-Qed.
-
 (* Forcing either path gives identical bonds, pi and stereo annotation, node classes, elements, charge
-   and multiplicity - whenever the RDKit oracle agrees with the SMILES (and the two restrictions above). *)
+   and multiplicity - whenever the RDKit oracle agrees with the SMILES and no aromatic linker is present. *)
 Theorem paths_agree :
   forall I c, wf_mol (mol I) = true -> rdk_agrees (mol I) (rd I) -> arom_consistent (mol I) ->
-  bo_build_ok (bo I) || origin_keeps_class = true ->
   exists g1 a1 g2 a2,
     delivers (run_builtin I (init_state c 1)) g1 a1 /\ delivers (run_rdkit I (init_state c 1)) g2 a2 /\
     (forall i j, has_edge g1 i j = has_edge g2 i j) /\
@@ -127,14 +113,14 @@ Theorem paths_agree :
     m_charge (run_builtin I (init_state c 1)) = m_charge (run_rdkit I (init_state c 1)) /\
     m_mult (run_builtin I (init_state c 1)) = m_mult (run_rdkit I (init_state c 1)).
 Proof.
-  intros I c W A AC OK.
+  intros I c W A AC.
   exists (builtin_graph I), (builder_atoms I), (rdkit_graph I), (rdkit_atoms I).
   split; [split; [apply builtin_no_crash, W | split; [apply builtin_graph_eq | apply builtin_atoms_eq]]|].
   split; [split; [apply rdkit_no_crash; assumption | split; [apply rdkit_graph_eq | apply rdkit_atoms_eq]]|].
   split; [intros i j; now rewrite builtin_has_edge, rdkit_has_edge|].
   split; [intros i j; now rewrite builtin_edge_pi, rdkit_edge_pi|].
   split; [intros k; now rewrite builtin_node_stereo, rdkit_node_stereo|].
-  split; [intros k; now rewrite builtin_node_class, OK, rdkit_node_class|].
+  split; [intros k; now rewrite builtin_node_class, rdkit_node_class|].
   split; [change (z_l (g_nodes (builtin_graph I)) = z_l (g_nodes (rdkit_graph I)));
           now rewrite builtin_node_z, rdkit_node_z|].
   split; [now rewrite builder_atoms_z, rdkit_atoms_z, (ra_atoms _ _ A)|].
@@ -178,8 +164,8 @@ Theorem charge_and_multiplicity_builtin :
   m_mult (run_builtin I (init_state c m)) = (if m =? 1 then mult_spec (mol I) else m).
 Proof. intros I c m. split; [apply builtin_charge_eq | apply builtin_mult_eq]. Qed.
 
-(* RDKit path: the same, provided RDKit reports at most two radical electrons, with the parity of the
-   electron count (ra_rad).  Partial: see the next theorem for what happens otherwise. *)
+(* RDKit path: the same, provided RDKit's radical-electron count has the parity of the electron count (ra_rad).
+   Partial in that sense only: the parity fact itself is an oracle property, checked per molecule by the harness. *)
 Theorem charge_and_multiplicity_rdkit_partial :
   forall I c m, rdk_agrees (mol I) (rd I) ->
   m_charge (run_rdkit I (init_state c m)) = charge_spec (mol I) /\
@@ -191,18 +177,34 @@ Proof.
   - apply Nat.eqb_neq in E. apply calc_mult_gen_keeps, E.
 Qed.
 
-(* For an odd number (> 1) of radical electrons: C[C] has 15 electrons, RDKit counts 3 radical electrons
-   (same parity) and the translated calc_multiplicity answers "singlet" while init_smiles answers "doublet".
-   Reported as init_organic_smiles|mult-odd-polyradical.  (Left disjunct: repaired - every odd count gives 2.) *)
-Theorem mult_odd_polyradical_fixed_or_refuted :
-  (forall n, Nat.odd n = true -> calc_mult_gen 1 n = 2) \/
-  exists I, wf_mol (mol I) = true /\ r_atoms (rd I) = z_spec (mol I) /\ r_charge (rd I) = charge_spec (mol I) /\
-            (Z.of_nat (r_nrad (rd I)) mod 2 = n_electrons false (s_atoms (mol I)) mod 2)%Z /\
-            m_mult (run_rdkit I (init_state 0%Z 1)) = 1 /\ mult_spec (mol I) = 2 /\
-            m_mult (run_builtin I (init_state 0%Z 1)) = 2.
+(* The translated calc_multiplicity turns a default multiplicity into a doublet exactly for an odd number of radical
+   electrons (any number: C[C] with 3 gives 2).  Breaks if the defect repaired by ae1a4b7 (only ONE radical electron
+   gave a doublet) is re-introduced. *)
+Theorem calc_multiplicity_parity :
+  forall n, calc_mult_gen 1 n = if Nat.odd n then 2 else 1.
+Proof. exact calc_mult_gen_parity. Qed.
+
+(* What the RDKit path does WITHOUT assuming the oracle is right (only that its indices are in range): no statement
+   raises and the store is a copy of the oracle - atoms, bonds, pi = RDKit's non-single bonds, stereo = RDKit's chiral
+   centres and stereo-bond ends, charge - plus the SMILES classes zipped onto the first atoms.  The RDKit halves of the
+   theorems above are this statement composed with rdk_agrees ("the oracle equals the specification"). *)
+Theorem rdkit_path_copies_oracle :
+  forall I c m, s_atoms (mol I) <> [] -> rdk_wf (rd I) ->
+  exists g a, delivers (run_rdkit I (init_state c m)) g a /\
+    map ma_z a = r_atoms (rd I) /\
+    (forall i j, has_edge g i j = existsb (fun b => same_pair (rb_i b) (rb_j b) i j) (r_bonds (rd I))) /\
+    (forall i j, edge_pi g i j = existsb (fun b => rb_nonsingle b && same_pair (rb_i b) (rb_j b) i j) (r_bonds (rd I))) /\
+    (forall k, node_stereo g k = existsb (Nat.eqb k) (rdk_marks (rd I)) && (k <? length (r_atoms (rd I)))) /\
+    m_charge (run_rdkit I (init_state c m)) = r_charge (rd I) /\
+    m_mult (run_rdkit I (init_state c m)) = calc_mult_gen m (r_nrad (rd I)).
 Proof.
-  first [ right; exists w_carbyne; repeat split; reflexivity
-        | left; intros n H; unfold calc_mult_gen; cbn [Nat.eqb andb]; rewrite H; reflexivity ].
+  intros I c m N W. exists (rdkit_graph I), (rdkit_atoms I).
+  split; [split; [apply rdkit_no_crash_wf; assumption | split; [apply rdkit_graph_eq | apply rdkit_atoms_eq]]|].
+  split; [apply rdkit_atoms_z|].
+  split; [intros i j; apply rdkit_has_edge_oracle|].
+  split; [intros i j; apply rdkit_edge_pi_oracle|].
+  split; [intros k; apply rdkit_node_stereo_oracle|].
+  split; [apply rdkit_charge_eq | apply rdkit_mult_eq].
 Qed.
 
 (* Path selection (decision table): metal in a bracket -> init_smiles; otherwise init_organic_smiles, which
@@ -223,6 +225,26 @@ Proof.
   - rewrite trace_table, guards_table. reflexivity.
   - intros c m W G. apply fallback_is_builtin; [exact W | now rewrite guards_table].
   - intros st G. apply no_fallback_is_rdkit. now rewrite guards_table.
+Qed.
+
+(* The constructor composes with the graph theorems: a molecule delivered by Molecule._init_smiles (no explicit
+   charge) IS the final store of init_smiles or of the RDKit path, as the decision table says. *)
+Theorem constructor_result_is_a_path_result :
+  forall I metal um st, wf_mol (mol I) = true -> init_top I metal None um = Built st ->
+  let st0 := init_state 0%Z (match um with Some m => m | None => 1 end) in
+  (metal = true -> st = run_builtin I st0) /\
+  (metal = false ->
+     if (8 <=? bo_max_ring (bo I)) || (length (explicit_atoms (mol I)) =? 1) || r_none (rd I)
+     then st = run_builtin I st0 else st = run_rdkit I st0).
+Proof.
+  intros I metal um st W H st0. split; intros M; subst metal.
+  - rewrite init_top_metal in H. cbv zeta in H. fold st0 in H.
+    destruct (m_crash (run_builtin I st0)); [discriminate | now injection H as <-].
+  - rewrite init_top_organic in H. cbv zeta in H. fold st0 in H.
+    destruct (m_crash (run_organic I st0)); [discriminate|]. injection H as <-.
+    rewrite <- guards_table. destruct (existsb (guard_holds I) organic_guards) eqn:G.
+    + apply fallback_is_builtin; assumption.
+    + apply no_fallback_is_rdkit, G.
 Qed.
 
 (* An explicit charge must equal the SMILES charge (else ValueError, no molecule); an explicit
